@@ -4,7 +4,8 @@ FILE = 'scales/thriftmux/sink.py'
 CLASSES = {
   'SocketTransportSink_mux': dict(path='SocketTransportSink', bases=['MuxSocketTransportSink'], fields={
     '_ping_timeout': 'real', '_ping_msg': 'any', '_last_ping_start': 'real', '_ping_ar': 'AsyncResult?'}),
-  'ThriftMuxMessageSerializerSink': dict(path='ThriftMuxMessageSerializerSink', bases=['ClientMessageSink'], fields={}),
+  'ThriftMuxMessageSerializerSink': dict(path='ThriftMuxMessageSerializerSink', bases=['ClientMessageSink'], fields={'_serializer': 'MuxMarshaller'}),
+  'MuxMarshaller': dict(extern=True, path=None, bases=[], fields={}),
   'MessageType': dict(file='scales/thriftmux/protocol.py', path='MessageType'),
 }
 
@@ -148,6 +149,22 @@ FUNCTIONS.update({
     allocates=True,
     props=['C08', 'C13'],
   ),
+  # liveness probe: every round that finds the transport active sends a ping -- unconditionally, whatever is queued --
+  # so that a silent peer is always noticed by the ping timeout
+  'SocketTransportSink_mux._PingLoop': dict(
+    path='SocketTransportSink._PingLoop', cls='SocketTransportSink_mux', conc='Mux', guar=[],
+    requires=['allocated(self._send_queue)'], ensures=[],
+    modifies=['*'], allocates=True,
+    yields=[{'at': 'gevent.sleep(random.randint(30, 40))', 'rely': ['allocated(self._send_queue)']}],
+    loops={0: dict(invariant=['not g_due', 'allocated(self._send_queue)'], modifies=['*'], allocates=True)},
+    ghost=[
+      {'before': 'while self.isActive:', 'do': ['g_due = False']},
+      {'after': 'gevent.sleep(random.randint(30, 40))', 'do': ['g_due = True']},
+      {'after': 'self._SendPingMessage()', 'do': ['g_due = False']},
+      {'before': 'break', 'do': ['prove(not self.isActive, "stops-only-when-the-transport-is-no-longer-active")', 'g_due = False']},
+    ],
+    props=['C08'],
+  ),
   # no successful ping reply within the timeout: the connection is shut down (closed, faulted, in-flight requests failed)
   'SocketTransportSink_mux._PingTimeoutHelper': dict(
     path='SocketTransportSink._PingTimeoutHelper', cls='SocketTransportSink_mux', conc='Mux', guar=[],
@@ -226,3 +243,32 @@ FUNCTIONS.update({
   ),
 })
 PREDICATES['starts_dunder'] = (['k'], 'k.startswith("__")')
+
+
+FUNCTIONS.update({
+  # each call is marshalled into a buffer of its own, and that buffer -- holding exactly this call's bytes -- travels
+  # down the chain: the transport may keep it (a request parked while the connection opens) and read it later, so a
+  # buffer shared between calls would let one call's bytes go out under another call's tag
+  'ThriftMuxMessageSerializerSink.AsyncProcessRequest': dict(
+    cls='ThriftMuxMessageSerializerSink',
+    params={'sink_stack': 'ClientMessageSinkStack', 'msg': 'Message', 'stream': 'any', 'headers': 'any'},
+    locals={'buf': 'Stream', 'ex': 'any'}, literals={'{}': 'dict[str,any]'},
+    requires=['allocated(self._serializer)', 'allocated(sink_stack)', 'allocated(msg.properties)', 'self._next is not None'], ensures=[],
+    modifies=['*'], allocates='any',
+    ghost=[
+      {'after': 'buf = BytesIO()', 'do': ['prove(fresh(buf), "a-buffer-of-its-own-for-every-call")', 'g_m = bmark(buf)']},
+      {'before': 'self.next_sink.AsyncProcessRequest(sink_stack, msg, buf, headers)', 'do': [
+        'prove(fresh(buf), "forwards-the-call-own-buffer")',
+        'prove(beq(content(buf), since(buf, g_m)), "the-forwarded-stream-holds-exactly-this-call")']},
+    ],
+    props=['C02', 'C13'],
+  ),
+})
+
+EXTERNS.update({
+  'Deadline.__init__': dict(params=[('timeout', 'any')], returns='Deadline', fresh=True, allocates=True, ensures=['result is not None'],
+                            notes='message.Deadline(timeout): timestamp + timeout in nanoseconds (encoded by _Marshal_Tdispatch)'),
+  'MuxMarshaller.Marshal': dict(params=[('msg', 'Message'), ('buf', 'Stream'), ('headers', 'any')], may_raise=['Exception'],
+                                writes={'buf': 'braw(msg.g_thrift, msg.g_thrift_len)'},
+                                notes='thriftmux MessageSerializer.Marshal: appends the Tdispatch / Tdiscarded body (units _Marshal_Tdispatch, _Marshal_Tdiscarded)'),
+})
